@@ -33,7 +33,7 @@ class P:
     exhaustive = True
     rule = ("exhaustive: all words of <= N segments (quick N=4, thorough N=6) over {ordinary, IFS white space, IFS non-white-space, non-IFS white space, "
             "quoted ordinary, quoted IFS char, empty quotes, unquoted $v, quoted $v} x IFS in {unset, default, ' ,', ',', ':', '', multi-byte}; "
-            "then random longer words with random values. Non-trivial = the word has at least two segments and one of them is an IFS character or an expansion")
+            "then random longer words with random values; values with invalid UTF-8 (all strings of <= 3 pieces over 6 byte sequences, random longer ones) under IFS containing U+FFFD or an invalid byte. Non-trivial = the word has at least two segments and one of them is an IFS character or an expansion")
     assumptions = ["pathname expansion disabled (NoGlob) as the property prescribes", "unicode.IsSpace replaced by the White_Space list"]
 
     def parts(self, seed, tier, C):
@@ -77,13 +77,29 @@ class P:
                     parts.append(X.P(rnd.choice("vwu"), rnd.choice([":-", "-", ":+", "+"]), [X.L(t), X.Q("'", X.L(t))]))
             rc.append(X.case(["sh", "p q", ""], X.NOGLOB, vs, 0, parts))
 
+        # invalid UTF-8 in values and U+FFFD / invalid bytes in IFS: a rune decoded as RuneError has width 1, not RuneLen = 3
+        bad = []
+        balpha = [b"a", b"\xff", b"\xc3", b"\xef\xbf\xbd", b" ", b"\xe9", "é".encode(), b"b", b":", b"\xf0\x9f"]
+        bifs = [b"\xef\xbf\xbd", b"\xff", b" \xff", b"\xef\xbf\xbd:", "é".encode(), b" \t\n", None]
+        vals = [b"".join(t) for n in (1, 2, 3) for t in itertools.product(balpha[:6], repeat=n)]
+        vals += [b"".join(rnd.choice(balpha) for _ in range(rnd.randint(4, 9))) for _ in range(1500 if tier == "quick" else 30000)]
+        for v in vals:
+            ifs = rnd.choice(bifs)
+            w = rnd.choice([[X.P("v")], [X.L("x"), X.P("v")], [X.P("v"), X.Q('"', X.P("v"))], [X.Q("'", X.L("q")), X.P("v"), X.L("y")]])
+            bad.append(X.case(["sh"], X.NOGLOB, {"IFS": ifs, "v": v}, 0, w))
+        for ifs in bifs[:4]:
+            for v in vals[:258]:
+                bad.append(X.case(["sh"], X.NOGLOB, {"IFS": ifs, "v": v}, 0, [X.P("v")]))
+
         def nontrivial(c):
             w = c.split("\t")[4]
             return w.count(" ") >= 1 and ("P" in w or any(x in w for x in ("L20", "L2c", "L3a", "L09")))
         return [{"name": "exhaustive", "harness": "xp", "driver": "xp14", "cases": cases, "nontrivial": nontrivial,
                  "distribution": {"max_segments": N, "ifs_settings": len(IFS_SETS), "cases": nex}},
                 {"name": "random", "harness": "xp", "driver": "xp14", "cases": rc, "nontrivial": nontrivial,
-                 "distribution": {"cases": nrand}}]
+                 "distribution": {"cases": nrand}},
+                {"name": "invalid-utf8", "harness": "xp", "driver": "xp14", "cases": bad, "nontrivial": lambda c: "P" in c.split("\t")[4],
+                 "distribution": {"cases": len(bad), "ifs_settings": len(bifs)}}]
 
     def describe(self, part, case):
         return X.describe(case)
